@@ -12,7 +12,7 @@ import (
 
 func init() {
 	trieOracles["C04"] = oracleC04
-	register(&Check{ID: "C04", Level: "model_checking", Run: runC04, QuickBudget: 200 * time.Second, ThoroughBudget: 45 * time.Minute})
+	register(&Check{ID: "C04", Level: "model_checking", Run: runC04, QuickBudget: 400 * time.Second, ThoroughBudget: 60 * time.Minute})
 }
 
 type kv struct {
@@ -436,13 +436,14 @@ func runC04(r *h.Run) {
 	p := defaultProfile()
 	p.noOptArg = true
 	p.quickIDk, p.quickScafK = 3, 2
-	p.thoroughIDk, p.thoroughScafK = 5, 3
+	p.thoroughIDk, p.thoroughScafK = 5, 2
+	p.u85k, p.shiftScafK = 2, 1 // the scan oracle costs about 10x a lookup oracle per trie
 	p.shortQuick = []int{2}
 	if r.Tier == "quick" {
 		keep := map[string]bool{"lift3": true, "bigroot-in": true, "bigroot-mid": true, "big2-in": true, "big2-under": true, "short2": true, "short2-mixed": true, "shift3": true, "shift30": true, "bigpair0": true, "bigpair1": true, "bigpair2": true, "bigpair3": true, "bignib": true, "bigalias": true}
 		p.scaffoldFilter = func(n string) bool { return keep[n] }
 	}
-	r.Rule = "all 16 option combinations + no-Opt form over the key/value space of C03 (id: K(U21,3) quick / K(U21,5) thorough; scaffolds over K(U21,2) / K(U21,3); K(U85,3) and large families in thorough); complete tries: NewIter as a state machine from every start of Q x both inclusivities x withValue (next() until nil, then 3 more calls), ScanFrom likewise, callback returning false after every j = 0..n from every start of the neighbourhood set E, ScanFromTo over E x E (thorough: E x Q) x 4 inclusivity combinations, and every interleaving of the next() calls of two iterators with result lists <= 3; encoders I32 everywhere, String16 and VarEnc (variable / zero width) on small sets, and no values; incomplete tries: ScanFrom, ScanFromTo and NewIter must panic before yielding anything (empty incomplete trie: panic or empty scan). Oracle: the slice of the sorted retained list selected by the bounds with Encode(v) bytes"
+	r.Rule = "all 16 option combinations + no-Opt form over the key/value space of C03 (id: K(U21,3) quick / K(U21,5) thorough; scaffolds over K(U21,2); K(U85,2), 130 shift offsets over K(U21,1) and large families in thorough); complete tries: NewIter as a state machine from every start of Q x both inclusivities x withValue (next() until nil, then 3 more calls), ScanFrom likewise, callback returning false after every j = 0..n from every start of the neighbourhood set E, ScanFromTo over E x E (thorough: E x Q) x 4 inclusivity combinations, and every interleaving of the next() calls of two iterators with result lists <= 3; encoders I32 everywhere, String16 and VarEnc (variable / zero width) on small sets, and no values; incomplete tries: ScanFrom, ScanFromTo and NewIter must panic before yielding anything (empty incomplete trie: panic or empty scan). Oracle: the slice of the sorted retained list selected by the bounds with Encode(v) bytes"
 	r.Assumptions = append([]string{"keys and values are copied on receipt (documented as temporary slices)", "nil and empty value bytes are interchangeable"}, commonAssumptions...)
 	thorough := r.Tier == "thorough"
 	phases := buildPhases(r, p)
